@@ -1,5 +1,5 @@
 CONSTANTS
-  Part = "name"
+  Part = "codech"
   Keys <- MCKeys
   MacStrs <- MCMacStrs
   WinStrs <- MCWinStrs
@@ -11,13 +11,10 @@ CONSTANTS
   MaxOps = 4
   AllowSharedMutation = FALSE
   CMaxOps = 2
-  AllowScratchReuse = FALSE
+  AllowScratchReuse = TRUE
   Pairs <- MCPairs
   BaseOf <- MCBaseOf
 INIT Init
 NEXT Next
 CHECK_DEADLOCK FALSE
-INVARIANT RecordsInside
-INVARIANT RecordsFaithful
-INVARIANT StorageTight
-INVARIANT NameRoundTrip
+INVARIANT ResultsStable
